@@ -21,6 +21,24 @@ def run(ctx):
     n_hist = 6 if ctx.quick else 40
     for i in range(n_hist):
         workloads.zset_history(ctx, srv, workloads.ZSetGen(ctx.rnd), n=600 if ctx.quick else 3000, label='zrand%d' % i)
+    # the sorted-set forms of the catalogue (every option, infinite scores, sums that are not a number) through the paths that have their
+    # own copy of the command: redis.call / redis.pcall, and queued in a transaction
+    import forms, formspaths
+    from session import Session, ServerDied
+    Z = [a for a in forms.FORMS if a[0][:1].upper() == b'Z']
+    tr = ctx.new_trace('forms')
+    s = Session(srv, tr)
+    nf = 0
+    try:
+        nf += formspaths.run_forms(s, 'script-lit', 0, subset=Z)
+        nf += formspaths.run_forms(s, 'script-pcall', 0, subset=Z[ctx.seed % 2::2] if ctx.quick else Z)
+        nf += formspaths.run_forms(s, 'multi', 0, subset=Z[(ctx.seed + 1) % 2::2] if ctx.quick else Z)
+        nf += formspaths.run_forms(s, 'direct', 0, subset=Z)
+    except ServerDied:
+        tr.emit({'k': 'crash', 'status': srv.exit_status()})
+    s.close_all()
+    ctx.validate_segments(tr, 'forms')
+    ctx.extra_cov['form_segments'] = nf
     # integer positions written in spellings the reference refuses ('+5', '007', '-0'): open finding lenient_int
     workloads.lenient_int_history(ctx, srv, 'zsets')
     ctx.extra_cov['distinct_cases'] = len(paths) + n_hist
